@@ -96,7 +96,9 @@
 #include <array>
 #include <cstddef>
 #include <cstdint>
+#include <cstring>
 #include <functional>
+#include <new>
 #include <limits>
 #include <memory>
 #include <sstream>
@@ -569,7 +571,7 @@ struct var_tr : base_tr
     case 1:
     {
       // assigned over an object that holds a different alternative with the same number (inactive alternative)
-      type r{direct((l[0] + 1) % 3, l[1])};
+      type r{direct((l[0] + 1) % 3, ~l[1])}; // all the other bits set
       r = direct(l[0], l[1]);
       return r;
     }
@@ -1378,23 +1380,49 @@ struct engine
     return r + Tr::extra(a, b);
   }
 
+  // route bit 3: the object lives in a buffer that was filled with a byte pattern before (whatever the constructor does
+  // not write - padding, the bytes of an inactive alternative - keeps the pattern); the low bits select Tr's route
+  struct slot
+  {
+    alignas(T) unsigned char buf[sizeof(T)];
+    T *p{nullptr};
+    slot() = default;
+    slot(slot const &) = delete;
+    slot &operator=(slot const &) = delete;
+    ~slot()
+    {
+      if (p != nullptr)
+        p->~T();
+    }
+    T &put(T &&x, unsigned char pattern)
+    {
+      std::memset(buf, pattern, sizeof buf);
+      p = new (buf) T(std::move(x));
+      return *p;
+    }
+  };
+
   static std::string rel(V const &a, V const &b, unsigned ra = 0, unsigned rb = 0)
   {
-    auto const x = Tr::make(a, ra);
-    auto const y = Tr::make(b, rb);
+    auto x = Tr::make(a, ra & 7U);
+    auto y = Tr::make(b, rb & 7U);
     if (!x || !y)
       return "bad-op";
-    return obs(*x, *y);
+    slot sx, sy;
+    T const &rx = (ra & 8U) != 0U ? sx.put(std::move(*x), 0xAB) : *x;
+    T const &ry = (rb & 8U) != 0U ? sy.put(std::move(*y), 0x5C) : *y;
+    return obs(rx, ry);
   }
 
   // the SAME object on both sides of every operator
   static std::string self(V const &a, unsigned ra)
   {
-    auto const x = Tr::make(a, ra);
+    auto x = Tr::make(a, ra & 7U);
     if (!x)
       return "bad-op";
-    T const &r1 = *x;
-    T const &r2 = *x;
+    slot sx;
+    T const &r1 = (ra & 8U) != 0U ? sx.put(std::move(*x), 0xAB) : *x;
+    T const &r2 = r1;
     return obs(r1, r2);
   }
 
@@ -1462,7 +1490,7 @@ struct engine
           V a(base), b(base);
           a[pos] = u;
           b[pos] = v;
-          h = vh::fnv(h, rel(a, b, static_cast<unsigned>(u & 3), static_cast<unsigned>(v & 1)));
+          h = vh::fnv(h, rel(a, b, static_cast<unsigned>(u & 11), static_cast<unsigned>(v & 9)));
         }
     };
     if (kind == 0)
@@ -1562,7 +1590,7 @@ struct engine
     if (t[0] == "relr" && t.size() == 6)
     {
       unsigned long long const ra = vh::to_ull(t[2]), rb = vh::to_ull(t[3]);
-      if (ra > 7 || rb > 7)
+      if (ra > 15 || rb > 15)
         return "bad-op";
       return rel(vh::int_list(t[4]), vh::int_list(t[5]), static_cast<unsigned>(ra), static_cast<unsigned>(rb));
     }
@@ -1576,21 +1604,21 @@ struct engine
     if (t[0] == "relsr" && t.size() == 6)
     {
       unsigned long long const ml = vh::to_ull(t[2]), ra = vh::to_ull(t[3]), rb = vh::to_ull(t[4]);
-      if (ml > 8 || ra > 7 || rb > 7)
+      if (ml > 8 || ra > 15 || rb > 15)
         return "bad-op";
       return rels(static_cast<unsigned>(ml), vh::int_list(t[5]), static_cast<unsigned>(ra), static_cast<unsigned>(rb));
     }
     if (t[0] == "self" && t.size() == 4)
     {
       unsigned long long const ra = vh::to_ull(t[2]);
-      if (ra > 7)
+      if (ra > 15)
         return "bad-op";
       return self(vh::int_list(t[3]), static_cast<unsigned>(ra));
     }
     if (t[0] == "selfs" && t.size() == 4)
     {
       unsigned long long const ml = vh::to_ull(t[2]), ra = vh::to_ull(t[3]);
-      if (ml > 8 || ra > 7)
+      if (ml > 8 || ra > 15)
         return "bad-op";
       return selfs(static_cast<unsigned>(ml), static_cast<unsigned>(ra));
     }
